@@ -2207,6 +2207,121 @@ def translate_laserpath(src_dir: str) -> str:
         METHODS, CFG_ATTRS, STATE_ATTRS, ORACLES, CFG_TYPE, LOCAL_ELT, EXTRA_PARAMS, MONAD, EXPR_HOOKS, STMT_SKIP, RECEIVERS, STMT_HOOKS = saved
     return ''.join(out)
 
+# ---- PGMCompiler.transform_points / flip / t_matrix / compensate (C02, C17): the order of the steps of the rigid map
+_TP_FWARP = ("Call(func=Attribute(value=Call(func=Attribute(value=Name(id='np'), attr='array'), args=[Call(func=Attribute(value=Name(id='self'), attr='fwarp'), "
+             "args=[Name(id='xy')], keywords=[])], keywords=[keyword(arg='dtype', value=Attribute(value=Name(id='np'), attr='float32'))]), attr='reshape'), "
+             "args=[Attribute(value=Name(id='z_comp'), attr='shape')], keywords=[])")
+_TP_XY = "Assign(targets=[Name(id='xy')], value=Call(func=Attribute(value=Name(id='np'), attr='column_stack'), args=[List(elts=[Name(id='x_comp'), Name(id='y_comp')])], keywords=[]))"
+
+
+def _tp_entry(tr, x, env):
+    """an entry of a matrix literal, as a rational"""
+    if isinstance(x, ast.Constant) and isinstance(x.value, (int, float)) and not isinstance(x.value, bool):
+        return [], cq(x.value)
+    eff, t = tr.E(x, env)
+    return eff, f'(to_float {t})'
+
+
+def _h_tp(tr, e, env):
+    d = dump(e)
+    if isinstance(e, ast.Call) and _np_is(e.func, 'np', 'asarray') and len(e.args) == 1 and [k.arg for k in e.keywords] == ['dtype'] \
+            and _np_is(e.keywords[0].value, 'np', 'float32'):
+        eff, t = tr.E(e.args[0], env)
+        return eff, f'(as_f32 ri {t})'
+    m = re.fullmatch(r"BinOp\(left=Name\(id='(\w+)'\), op=Sub\(\), right=Subscript\(value=Attribute\(value=Name\(id='self'\), attr='shift_origin'\), "
+                     r"slice=Constant\(value=([01])\)\)\)", d)
+    if m:
+        return [], f"(sub_f32 ro {cname(m.group(1))} (cfg_shift_{'xy'[int(m.group(2))]} c))"
+    if isinstance(e, ast.Call) and _np_is(e.func, 'np', 'array') and len(e.args) == 1 and not e.keywords:
+        a = e.args[0]
+        if isinstance(a, ast.List) and a.elts and all(isinstance(r, ast.List) for r in a.elts):
+            effs, rows = [], []
+            for r in a.elts:
+                ts = []
+                for x in r.elts:
+                    eff, t = _tp_entry(tr, x, env)
+                    effs += eff
+                    ts.append(t)
+                rows.append('[' + '; '.join(ts) + ']')
+            return effs, '[' + '; '.join(rows) + ']'
+        if isinstance(a, ast.List) and a.elts and all(isinstance(r, ast.Name) for r in a.elts):
+            return [], '[' + '; '.join(cname(r.id) for r in a.elts) + ']'          # np.array([xc, yc]): the vectors as rows
+        if isinstance(a, ast.Name):
+            return [], cname(a.id)
+        raise Unsupported(f'np.array of {d[:120]}')
+    if isinstance(e, ast.Call) and isinstance(e.func, ast.Attribute) and dump(e.func.value) == "Name(id='copy')" and e.func.attr == 'deepcopy' and len(e.args) == 1:
+        return tr.E(e.args[0], env)               # a copy: values are immutable here (C09 checks that the caller's arrays are left alone)
+    if isinstance(e, ast.Call) and isinstance(e.func, ast.Attribute) and isinstance(e.func.value, ast.Name) and e.func.value.id == 'np' \
+            and e.func.attr in ('cos', 'sin') and len(e.args) == 1 and dump(e.args[0]) == "Attribute(value=Name(id='self'), attr='rotation_angle')":
+        return [], f'(cfg_{e.func.attr} c)'
+    if isinstance(e, ast.BinOp) and isinstance(e.op, ast.MatMult):
+        e1, t1 = tr.E(e.left, env)
+        e2, t2 = tr.E(e.right, env)
+        return e1 + e2, f'(matmul {t1} {t2})'
+    if isinstance(e, ast.Call) and _np_is(e.func, 'np', 'matmul') and len(e.args) == 2 and not e.keywords:
+        e1, t1 = tr.E(e.args[0], env)
+        e2, t2 = tr.E(e.args[1], env)
+        return e1 + e2, f'(matmul {t1} {t2})'
+    if isinstance(e, ast.Attribute) and e.attr == 'T':
+        eff, t = tr.E(e.value, env)
+        return eff, f'(mT {t})'
+    if (isinstance(e, ast.Call) and _np_is(e.func, 'np', 'stack') and len(e.args) == 1 and isinstance(e.args[0], ast.Tuple)
+            and all(isinstance(x, ast.Name) for x in e.args[0].elts) and len(e.keywords) == 1 and e.keywords[0].arg == 'axis'
+            and _np_const_index(e.keywords[0].value) == -1):
+        return [], '(stack_last [' + '; '.join(cname(x.id) for x in e.args[0].elts) + '])'
+    if d == _TP_FWARP:
+        return [], '(surface ro srf x_comp y_comp)'
+    if isinstance(e, ast.Call) and isinstance(e.func, ast.Attribute) and isinstance(e.func.value, ast.Name) and e.func.value.id == 'np':
+        raise Unsupported(f'numpy call outside the subset: {d[:160]}')
+    return None
+
+
+def _s_tp(tr, s, rest, env, tail):
+    d = dump(s)
+    if d == _TP_XY:
+        return tr.T(rest, env, tail)              # only handed to self.fwarp (matched together with it)
+    if isinstance(s, ast.AugAssign) and isinstance(s.op, ast.Add) and isinstance(s.target, ast.Name) and isinstance(s.value, ast.Name):
+        n = cname(s.target.id)
+        return f'let {n} := add_f32 ro {n} {cname(s.value.id)} in {tr.T(rest, env, tail)}'
+    if (isinstance(s, ast.Assign) and len(s.targets) == 1 and isinstance(s.targets[0], ast.Tuple) and all(isinstance(x, ast.Name) for x in s.targets[0].elts)
+            and not isinstance(s.value, ast.Name)):
+        names = [cname(x.id) for x in s.targets[0].elts]
+        eff, t = tr.E(s.value, env)
+        return tr.wrap(eff, f"match {t} with [{'; '.join(names)}] => {tr.T(rest, env, tail)} | _ => raise EValue end")
+    return None
+
+
+_TP_HEADER = """Section Src.
+Context (ri ro : Q -> Q) (srf : Q -> Q -> Q).
+
+"""
+
+
+def translate_transform(src_dir: str) -> str:
+    global METHODS, CFG_ATTRS, STATE_ATTRS, ORACLES, CFG_TYPE, LOCAL_ELT, EXTRA_PARAMS, MONAD, EXPR_HOOKS, STMT_SKIP, RECEIVERS, STMT_HOOKS
+    saved = (METHODS, CFG_ATTRS, STATE_ATTRS, ORACLES, CFG_TYPE, LOCAL_ELT, EXTRA_PARAMS, MONAD, EXPR_HOOKS, STMT_SKIP, RECEIVERS, STMT_HOOKS)
+    out = [PURE_PREAMBLE % ('pgmcompiler.py', '', 'TpState'), _TP_HEADER]
+    try:
+        mod = ast.parse(pathlib.Path(src_dir, 'pgmcompiler.py').read_text())
+        cls = [n for n in mod.body if isinstance(n, ast.ClassDef) and n.name == 'PGMCompiler']
+        if len(cls) != 1:
+            raise Unsupported('class PGMCompiler not found')
+        METHODS = {'t_matrix': ('property', [], 'mat'),
+                   'flip': ('method', [('xc', 'vec'), ('yc', 'vec')], 'list vec'),
+                   'compensate': ('method', [('x', 'vec'), ('y', 'vec'), ('z', 'vec')], 'list vec'),
+                   'transform_points': ('method', [('x', 'vec'), ('y', 'vec'), ('z', 'vec')], 'mat')}
+        CFG_ATTRS, STATE_ATTRS, ORACLES = {'flip_x', 'flip_y', 'neff', 'warp_flag', 'cos', 'sin', 'shift_x', 'shift_y'}, {}, {}
+        CFG_TYPE, LOCAL_ELT, EXTRA_PARAMS, MONAD = 'tp_cfg', {}, '', 'MT'
+        EXPR_HOOKS, STMT_SKIP, RECEIVERS, STMT_HOOKS = [_h_tp], [], {'self'}, [_s_tp]
+        tr = Tr(cls[0])
+        out.append('\n'.join(f'Notation cfg_{a} := tp_{a}.' for a in sorted(CFG_ATTRS)) + '\n\n')
+        for name in METHODS:
+            out.append(tr.method(name) + '\n')
+        out.append('End Src.\n')
+    finally:
+        METHODS, CFG_ATTRS, STATE_ATTRS, ORACLES, CFG_TYPE, LOCAL_ELT, EXTRA_PARAMS, MONAD, EXPR_HOOKS, STMT_SKIP, RECEIVERS, STMT_HOOKS = saved
+    return ''.join(out)
+
 
 def main(argv):
     """py2coq.py <dir of femto sources> <output dir> <group>...   groups: pgm (PgmSrc.v), SrcLp.v, SrcNw.v, SrcTc.v, SrcTr.v"""
@@ -2232,6 +2347,8 @@ def main(argv):
                 name, text = g, translate_raster(str(src_dir))
             elif g == 'SrcLb.v':
                 name, text = g, translate_laserpath(str(src_dir))
+            elif g == 'SrcTp.v':
+                name, text = g, translate_transform(str(src_dir))
             elif g == 'SrcSs.v':
                 name, text = g, translate_sheet(str(src_dir))
             elif g == 'SrcTn.v':
